@@ -522,8 +522,20 @@ def check_semantics(repo: Repo, rep: Report, tier: str = "quick") -> bool:
     return True
 
 
+def _local_classes(repo: Repo) -> Dict[str, List[str]]:
+    """private helper classes of solver.py (other than Solver) -> their method names"""
+    mod = repo.mod(SOLVER)
+    out: Dict[str, List[str]] = {}
+    for q in mod.funcs:
+        parts = q.split(".")
+        if len(parts) == 2 and parts[0] != "Solver" and parts[0] in mod.classes:
+            out.setdefault(parts[0], []).append(parts[1])
+    return out
+
+
 def _reachable(repo: Repo) -> List[ast.AST]:
     mod = repo.mod(SOLVER)
+    helpers = _local_classes(repo)
     seen: Dict[str, ast.AST] = {}
     todo = ["Solver.solve"]
     while todo:
@@ -531,13 +543,17 @@ def _reachable(repo: Repo) -> List[ast.AST]:
         if q in seen or q not in mod.funcs:
             continue
         seen[q] = mod.funcs[q]
+        owner = q.split(".")[0] if "." in q else None
         for n in ast.walk(mod.funcs[q]):
             if isinstance(n, ast.Call):
                 d = dotted(n.func)
-                if d and d.startswith("self."):
-                    todo.append("Solver." + d[5:])
+                if d and d.startswith("self.") and owner:
+                    todo.append(owner + "." + d[5:])
                 elif d and d in mod.funcs:
                     todo.append(d)
+                elif d and d in helpers:
+                    # a helper object is created: every method of its class may run
+                    todo.extend(f"{d}.{m}" for m in helpers[d])
     return list(seen.values())
 
 
@@ -616,7 +632,7 @@ class _Capture:
         self.rep.saw(*a)
 
 
-ALLOWED_CALLS = {"any", "all", "range", "len", "enumerate", "zip", "list", "tuple", "isinstance", "BoolExpr", "fold_or", "cast",
+ALLOWED_CALLS = {"any", "all", "range", "len", "enumerate", "zip", "list", "tuple", "isinstance", "BoolExpr", "fold_or", "cast", "getattr",
                  "warnings.warn", "ValueError", "TypeError", "map", "filter", "reversed"}
 ALLOWED_METHODS = {"add_constraint", "solve", "solve_irrefutably", "append", "extend", "format"}
 
@@ -628,6 +644,8 @@ def check_vocabulary(repo: Repo, rep: Report) -> List[str]:
     mod = repo.mod(SOLVER)
     funcs = _reachable(repo)
     local_funcs = {q.split(".")[-1] for q in mod.funcs}
+    helpers = _local_classes(repo)
+    helper_methods = {m for ms in helpers.values() for m in ms}
     for f in funcs:
         tests: List[ast.AST] = []
         for n in ast.walk(f):
@@ -650,6 +668,8 @@ def check_vocabulary(repo: Repo, rep: Report) -> List[str]:
                     bad.append(f"{f.name}: call `{short(n)}`")
                 elif d in ALLOWED_CALLS or d.split(".")[-1] in ALLOWED_METHODS:
                     pass
+                elif d in helpers or ("." in d and d.split(".")[-1] in helper_methods):
+                    pass  # a private helper class of solver.py: its methods are analysed as reachable code
                 elif d.startswith("self.") and d[5:] in local_funcs or d in mod.funcs:
                     pass
                 elif isinstance(n.func, ast.Name) and any(isinstance(a, ast.Name) and a.id == d and isinstance(a.ctx, ast.Store)
